@@ -96,13 +96,12 @@ def term_case(c):
                             explicitTrap=False, tol=c['tol'])
     phi = Spline2D(bq, br)
     SplineInterpolator2D(bq, br).compute_interpolant(_phi_values(c['kind'], c['amp'], q, r, nprng), phi)
-    L = lipschitz(phi, bq, br, c['dt'], _Consts.B0)
     f = nprng.random((q.size, r.size))
     if c.get('predicate_only'):
-        return ('predicate', 0.0, L)
+        return ('predicate', 0.0, lipschitz(phi, bq, br, c['dt'], _Consts.B0))
     t0 = time.time()
     adv.step(f, c['dt'], phi, 0.0)
-    return ('returned', time.time() - t0, L, bool(np.all(np.isfinite(f))))
+    return ('returned', time.time() - t0, None, bool(np.all(np.isfinite(f))))
 
 
 def witness_case(c):
@@ -266,9 +265,9 @@ def run_float_stages(chk):
     for k in range(2 if quick else 8):
         cases.append({'seed': rng.randint(1, 10 ** 6), 'nq': 12, 'nr': 10, 'p': 3, 'kind': 'random', 'amp': rng.choice([0.1, 1.0]),
                       'dt': rng.choice([0.1, 1.0]), 'tol': 1e-10, 'nul': False, 'expect': 'rough'})
-    res = implrun.run_cases('props.c12_float', 'term_case', cases, tmo=6.0 if quick else 12.0, chunk=1)
+    res = implrun.run_cases('props.c12_float', 'term_case', cases, tmo=15.0 if quick else 30.0, chunk=1)
     pred = implrun.run_cases('props.c12_float', 'term_case', [dict(c, predicate_only=True) for c in cases], tmo=120.0, chunk=1)
-    wit = implrun.run_cases('props.c12_float', 'witness_case', [{'scale': 1.0}], tmo=4.0, chunk=1)
+    wit = implrun.run_cases('props.c12_float', 'witness_case', [{'scale': 1.0}], tmo=8.0, chunk=1)
     stats = {'returned': 0, 'not-returned-non-contractive': 0, 'max_L_returned': 0.0}
     for c, r, pr in zip(cases + [{'kind': 'coq-witness', 'expect': 'rough'}], res + wit, pred + [('predicate', 0.0, math.inf)]):
         L = pr[2] if isinstance(pr, tuple) and len(pr) > 2 else float('nan')
@@ -282,6 +281,13 @@ def run_float_stages(chk):
             if not r[3]:
                 chk.violation('poloidal_advection_step_impl:non-finite-result', 'implicit step returned inf/nan: %r' % (c,), rep)
         elif r[0] == 'timeout':
+            if not (L >= 1.0):
+                # a loaded machine must not turn into a finding: once more, alone, with a long alarm
+                r2 = implrun.run_cases('props.c12_float', 'term_case', [c], tmo=240.0, chunk=1)[0]
+                if r2[0] == 'returned':
+                    stats['returned'] += 1
+                    stats['slow_returns'] = stats.get('slow_returns', 0) + 1
+                    continue
             if L >= 1.0:
                 stats['not-returned-non-contractive'] += 1
                 chk.violation(KEY_NONTERM, 'implicit iteration does not stop (alarm) on %r; contraction number '
